@@ -832,3 +832,90 @@ def r11_5(ctx, rr):
             rr.ob(ok, key=key, sample={"fn": b.key, "call": show(F, n)[:80], "size": amt})
             if not ok:
                 rr.violate(key, "%s sizes the backend with `%s`, which derives from an iterator's size hint or a capacity, not from the number of elements actually stored: words beyond ceil(len * width / BITS) stay allocated" % (b.key, amt), F.loc(n))
+
+
+SHRINKERS = ("clear", "truncate", "pop", "drain", "split_off", "shrink_to", "shrink_to_fit", "remove", "swap_remove", "retain", "dedup")
+
+
+@rule("R05.10", props=["C05", "C12"], floor=3, title="no method of BitFieldVec removes words from the backend (zero-width accesses rely on word 0 being there; elements are removed by lowering len only)")
+def r05_10(ctx, rr):
+    """clear/pop/resize of the vector change `len`; the backend keeps its words. With bit width 0 every access
+    reads or writes word 0 and growth never adds a word, so a backend emptied by `self.bits.clear()` makes the
+    next push an out-of-bounds write."""
+    F = ctx.F()
+    bodies = [b for b in F.fns() if not is_derived(b) and b.file.endswith("bits/bit_field_vec.rs") and b.impl_adt in VEC_ADTS and b.sig_in and b.sig_in[0].startswith("&mut")]
+    if len(bodies) < 10:
+        raise AnchorMissing("expected at least 10 `&mut self` methods of the bit-field vectors")
+    n_checked = 0
+    for b in bodies:
+        slf = ("var", "self", b.params[0]["id"])
+        T = Termizer(F, b)
+        for n in walk(b.body):
+            if n.get("k") == "MethodCall" and n["name"] in SHRINKERS and T.term(n["recv"]) == ("field", slf, "bits"):
+                rr.instances += 1
+                key = "%s:backend-never-shrinks" % short_fn(b.key)
+                rr.ob(False, key=key)
+                rr.violate(key, "%s calls `%s` on the backend: removing words breaks the invariant that the backend always holds at least the words of the elements and, for bit width 0, word 0 (the next zero-width push/get touches a word that is no longer there)" % (b.key, show(F, n)[:60]), F.loc(n))
+        n_checked += 1
+    for _ in range(n_checked):
+        rr.instances += 1
+        rr.ob(True, key="backend-never-shrinks", nontrivial=False)
+
+
+@rule("R06.4", props=["C06", "C14", "C05"], floor=10, title="a low-bits mask built from the residual len % BITS is applied only where the residual is known to be non-zero (the mask of residual 0 is empty, not full)")
+def r06_4(ctx, rr):
+    """`(1 << r) - 1` with r = len % BITS selects the live bits of the last word only when r != 0; for r == 0 the
+    last word is full and the mask is 0. Using it unguarded (`last &= mask`) clears a whole word at word-aligned
+    lengths."""
+    F = ctx.F()
+    bodies = [b for b in F.fns() if not is_derived(b) and b.file.endswith(("bits/bit_vec.rs", "bits/bit_field_vec.rs"))]
+    inl = ctx.memo("inliner", lambda: make_inliner(F))
+    for b in bodies:
+        hits = []
+
+        def is_res(t):
+            return t[0] == "op" and t[1] == "%" and (is_bits_def(t[3]) or t[3] == ("int", 64)) and mentions(t[2], lambda x: (x[0] == "field" and x[2] == "len") or (x[0] == "var" and x[1] in ("len", "num_bits")) or (x[0] == "call" and x[1].endswith("len")))
+
+        def on_node(W, n, K, hits=hits):
+            if W.debug_depth:
+                return
+            k = n.get("k")
+            operand = None
+            if k == "AssignOp" and n["op"] == "&=":
+                operand = n["r"]
+            elif k == "Binary" and n["op"] == "&":
+                # either side
+                for side in (n["l"], n["r"]):
+                    t = canon_masks(W.expand(W.T.term(side)))
+                    if t[0] == "un" and t[1] == "!":
+                        t = t[2]
+                    if t[0] == "lowmask" and is_res(t[1]):
+                        operand = side
+            if k == "MethodCall" and n["name"] in ("fetch_and", "fetch_or", "fetch_xor") and n["args"]:
+                t0 = canon_masks(W.expand(W.T.term(n["args"][0])))
+                if t0[0] == "un" and t0[1] == "!":
+                    t0 = t0[2]
+                if t0[0] == "lowmask" and is_res(t0[1]):
+                    ok = K.entails(atom_ne(t0[1], ("int", 0))) or K.entails(atom_le(("int", 1), t0[1]))
+                    hits.append((n, ok, tshow(t0[1])[:80]))
+                return
+            if operand is None:
+                return
+            t = canon_masks(W.expand(W.T.term(operand)))
+            if t[0] == "un" and t[1] == "!":
+                t = t[2]
+            if t[0] == "lowmask" and is_res(t[1]):
+                ok = K.entails(atom_ne(t[1], ("int", 0))) or K.entails(atom_le(("int", 1), t[1]))
+                hits.append((n, ok, tshow(t[1])[:80]))
+        Walker(F, b, on_node=on_node, inline=inl).run()
+        seen = set()
+        for n, ok, r in hits:
+            loc = F.loc(n)
+            if loc in seen:
+                continue
+            seen.add(loc)
+            rr.instances += 1
+            key = "%s:residual-mask-guarded" % short_fn(b.key)
+            rr.ob(ok, key=key + str(ok))
+            if not ok:
+                rr.violate(key, "%s applies the low-bits mask of the residual `%s` in `%s` without `residual != 0` being established: at a word-aligned length the mask is 0 and the whole last word is cleared" % (b.key, r, show(F, n)[:80]), loc)
